@@ -15,7 +15,33 @@ def run(ctx):
     prog = ctx.prog
     r10a(ctx)
     r10b(ctx)
+    r10e(ctx)
     r10c(ctx)
+
+
+def r10e(ctx):
+    """copy assignment of the two key classes writes every member that carries state (sa/statecover.py): a member that some
+    member function reads before writing it -- key material, a derived root exponent, a cached key id -- and that
+    operator= leaves alone makes the assigned-to object answer from a mixture of the old and the new key: valid signatures
+    of the new key are refused, the stale id is stamped into ciphertexts, check() refuses an untouched generated key"""
+    from ..statecover import assignment_gaps
+    n = 0
+    for cls in ('TMCG_PublicKey', 'TMCG_SecretKey'):
+        r = assignment_gaps(ctx.prog, cls)
+        if r is None:
+            ctx.note('R10e', 'R10e:%s' % cls, 'no user-provided copy assignment (the implicit one copies every member)', None)
+            n += 1
+            continue
+        gaps, cs, ex, ops = r
+        n += 1
+        if gaps:
+            for m, f, line, op in gaps:
+                ctx.bad('R10e', 'R10e:%s:%s' % (cls, m), 'operator= does not write the member %s, which %s reads before writing it (line %d): after '
+                        'an assignment the object combines the new key with the old %s' % (m, f['q'], line, m), op)
+        else:
+            ctx.ok('R10e', 'R10e:%s' % cls, 'operator= writes all %d state-carrying members (%s); scratch members: %s' % (
+                len(ex), ', '.join(sorted(ex)), ', '.join(sorted(set(cs.fields) - set(ex))) or 'none'), ops[0])
+    ctx.floor('R10e', n, 2)
 
 
 def macro_consts(f, prefix):
@@ -297,6 +323,7 @@ EXPLANATION = ("Static gate and agreement analysis of the Rabin key code: every 
                "self-signature over name|email|type|m|y|nizk; for keys with a validity proof each stage counter is compared with the "
                "library's round number and each stage loop checks its relation per round; the proof block the generator writes has the "
                "magic, delimiter and field structure the validator parses and both seed the common random numbers with m^y; verify accepts "
-               "only on equality of the recomputed hash, decrypt only on the padding redundancy. Round-trip success for every key size and "
+               "only on equality of the recomputed hash, decrypt only on the padding redundancy; copy assignment of the key classes writes every "
+               "member that a member function reads before writing it (no stale key id or root exponent after `a = b`). Round-trip success for every key size and "
                "rejection of every altered field are not decided.")
 ASSUMPTIONS = ["the hash functions tmcg_h / tmcg_g are collision resistant (not checked)", "writer/reader structure is compared up to retry loops"]
